@@ -22,7 +22,7 @@ def show(r):
         if o["status"] != "proved":
             print("   ", o["status"], o["name"], o["backend"], "model=", o["model"], o["note"], "\n      goal:", o["goal"][:200])
     print("   called:", r.called)
-for t, c in cs.contracts.items():
+for t, c in cs.by_name.items():
     if filt in t:
         show(verify_function(w, cs, c))
 for name, fi, types, opts in cs.lemmas:
